@@ -422,6 +422,97 @@ class Impl:
         return [('sym', f.value) if f.is_symbol else ('const', f.value) for f in self.symbol_syntax.split(s)]
 
 
+E2E_ENV = [('X', 'xval'), ('Y', 'y v'), ('S_1', '@[X]@'), ('E', ''), ('X_', '<X_>')]
+E2E_NEXT = "file g.txt = 'mark'\n"
+E2E_NEXT_ITEMS = [([('N', 'file')], ' '), ([('N', 'g.txt')], ' '), ([('N', '=')], ' '), ([('H', 'mark')], '\n')]
+FILE_ARG_PREFIX = 'f.txt = '
+
+
+class E2E:
+    """`file f.txt = RICH-STRING` through the whole program (parse, validate, execute in a sandbox that is kept), the
+    created file read back"""
+
+    def __init__(self, root):
+        self.root = root
+        self.mp = impl.main_program(root)
+        self.head = '[setup]\n' + ''.join("def string %s = '%s'\n" % (k, v) for k, v in E2E_ENV)
+        self.line = 2 + len(E2E_ENV)
+
+    def run(self, rich_src):
+        d = tempfile.mkdtemp(prefix='case-', dir=self.root)
+        with open(os.path.join(d, 't.case'), 'w', encoding='utf-8', newline='') as f:
+            f.write(self.head + 'file ' + FILE_ARG_PREFIX + rich_src)
+        r = impl.run_main(self.mp, ['--keep', 't.case'], d, d)
+        try:
+            if r.exception is not None:
+                return ('other', 'exception ' + type(r.exception).__name__)
+            if r.exit_code == 0 and r.out.strip():
+                sds = r.out.strip().splitlines()[0]
+                try:
+                    with open(os.path.join(sds, 'act', 'f.txt'), encoding='utf-8', newline='') as f:
+                        contents = f.read()
+                    gp = os.path.join(sds, 'act', 'g.txt')
+                    g_ok = os.path.isfile(gp) and open(gp).read() == 'mark'
+                    return ('file', contents, g_ok)
+                finally:
+                    if os.path.dirname(os.path.abspath(sds)) == os.path.abspath(self.root):
+                        shutil.rmtree(sds, ignore_errors=True)
+            first = (r.err.splitlines() or [''])[0]
+            if first == 'SYNTAX_ERROR':
+                return ('syntax', ('t.case, line %d\n' % self.line) in r.err)
+            return ('other', first)
+        finally:
+            shutil.rmtree(d, ignore_errors=True)
+
+
+def gen_e2e(rng):
+    """a rich string alone on the line of `file f.txt = ...`, followed by the instruction E2E_NEXT (unless it is meant to be
+    unterminated); only the symbols of E2E_ENV may be referenced"""
+    known = {k for k, _ in E2E_ENV}
+    for _ in range(200):
+        r = rng.below(100)
+        if r < 45:
+            t = gen_token(rng)
+            if render_tok(t)[0] in '-(' or render_tok(t).startswith('<<') or (t[0][0] == 'N' and chars_tok(t) == ':>'):
+                t = [('H', '')] + t
+            st = ('plain', [(t, rng.choice(['', ' ', '\t']) + '\n')] + E2E_NEXT_ITEMS, None)
+        elif r < 52:
+            st = ('plain', [], gen_unterm(rng))
+        elif r < 70:
+            e = gen_rich(rng, 'rich')
+            while e[0] != 'eol':
+                e = gen_rich(rng, 'rich')
+            st = ('eol', e[1], e[2], E2E_NEXT)
+        else:
+            h = gen_heredoc(rng)
+            end = ('end', E2E_NEXT) if h[4][0] == 'end' else h[4]
+            st = ('here', h[1], h[2], h[3], end)
+        src = render_rich(st)
+        if '\r' in src:  # a CR in a case FILE is translated to LF when the file is read (text mode), before any parsing
+            continue
+        texts = [src] + ([chars_tok(t) for t, _ in st[1]] if st[0] == 'plain' else [])
+        if all(k in known for k, _ in env_for(texts) if k not in ENV_D or k in known) and \
+                not any(k not in known for k, _ in env_for(texts)[len(ENV):]) and '@[é]@' not in ''.join(texts):
+            return st
+    return ('eol', ' ', 'a', E2E_NEXT)
+
+
+def e2e_case(e2e, st):
+    rich_src = render_rich(st)
+    obs = e2e.run(rich_src)
+    if obs[0] == 'file':
+        co = '(PFile %s %s)' % (ctext(obs[1]), cbool(obs[2]))
+    elif obs[0] == 'syntax':
+        co = '(PSyntax %s)' % cbool(obs[1])
+    else:
+        co = '(PExn ExOther)'
+    src = FILE_ARG_PREFIX + rich_src
+    term = '(CParse KFile %s %s %s (Some (%s, %s)) %s)' % (c_oracle(src + env_chars(E2E_ENV)), c_env(E2E_ENV), ctext(src),
+                                                          ctext(FILE_ARG_PREFIX), c_rich(st), co)
+    return term, {'kind': 'parse-file', 'source': src, 'structure': (FILE_ARG_PREFIX, st), 'observed': obs, 'symbols': E2E_ENV,
+                  'case_file': e2e.head + 'file ' + src}
+
+
 # ---------------------------------------------------------------------------------------------
 # known findings: predicates on the INPUT
 # ---------------------------------------------------------------------------------------------
@@ -578,6 +669,8 @@ def finding_of(info):
         return None
     if k in ('parse-string', 'parse-rich') and st[1][0] == 'plain' and st[1][1]:
         return KF1 if kf1_applies([st[1][1][0][0]], [obs[2]], info['symbols']) else None
+    if k == 'parse-file' and st[1][0] == 'plain' and st[1][1] and obs[0] == 'file' and obs[2]:
+        return KF1 if kf1_applies([st[1][1][0][0]], [obs[1]], info['symbols']) else None
     if k == 'list':
         toks = [i[1] for i in st[1][0] if i[0] == 'tok']
         return KF1 if kf1_applies(toks, obs[2], info['symbols']) else None
@@ -609,11 +702,22 @@ CORPUS_LIST = [
 ]
 
 
+CORPUS_E2E = [
+    ('plain', [([('N', 'a#b')], '\n')] + E2E_NEXT_ITEMS, None),                                   # Appendix A4 (repaired)
+    ('plain', [([('S', 'A'), ('H', '@[X]@')], '\n')] + E2E_NEXT_ITEMS, None),                      # Appendix A5: KF-C09-1
+    ('here', 'EOF', '', ['abc', '\xa0'], ('end', E2E_NEXT)),                                     # FIX-C09-2 repro t1
+    ('here', 'EOF', '', ['[setup]', '# c', 'EOF ', ' EOF', '<<EOF', "it's", '@[X]@'], ('end', E2E_NEXT)),
+    ('here', 'EOF', '', ['a'], ('missing', None)),
+    ('plain', [], ([], "'", 'abc')),
+    ('eol', ' ', "it's @[Y]@ #x ", E2E_NEXT),
+]
+
+
 def run(ctx, res):
     rng = ctx.rng
     q = ctx.quick
-    n_tok, n_soup, n_str, n_rich, n_list, n_split, n_psoup = ((1500, 800, 800, 2000, 1200, 800, 500) if q else
-                                                              (15000, 8000, 8000, 20000, 12000, 8000, 5000))
+    n_tok, n_soup, n_str, n_rich, n_list, n_split, n_psoup, n_e2e = ((1500, 800, 800, 2000, 1200, 800, 500, 200) if q else
+                                                                     (15000, 8000, 8000, 20000, 12000, 8000, 5000, 2500))
     im = Impl()
     cases = []  # (term, info, nontrivial-key or None)
 
@@ -673,6 +777,16 @@ def run(ctx, res):
         s = ''.join(rng.choice(REFP if rng.chance(0.6) else WORDS + [' ']) for _ in range(rng.randint(0, 6)))
         add(split_case(im, s), ('split', s) if s.count('@[') >= 2 else None)
 
+    # end to end
+    root = tempfile.mkdtemp(prefix='e2e-', dir=ctx.work)
+    try:
+        e2e = E2E(root)
+        for st in CORPUS_E2E + [gen_e2e(rng) for _ in range(n_e2e)]:
+            add(e2e_case(e2e, st), ('e2e', render_rich(st)))
+            res.count('end to end: ' + st[0])
+    finally:
+        shutil.rmtree(root, ignore_errors=True)
+
     res.evaluations = len(cases)
     res.rule = ('structures (1-4 fragments per token, naked/soft/hard in every order; separators space, tab, CR, LF; reserved words, '
                 'option-like words, #, backslash, <<, :>, non-ASCII incl. alphanumeric non-ASCII and Unicode white space; '
@@ -700,6 +814,16 @@ def run(ctx, res):
                                                                  'harness rendering differs from the Coq rendering / is not well-formed'))
 
 
+def search(ctx, res):
+    """failing-input search (a proof obligation or the correspondence broke, no property failure seen yet): the thorough
+    generator with a fresh stream; returns the property failures it finds"""
+    ctx2 = common.Ctx(ctx.prop, 'thorough', ctx.seed + 1)
+    r2 = common.Result()
+    run(ctx2, r2)
+    res.extra['failing_input_search'] = {'evaluations': r2.evaluations, 'property_failures': len(r2.prop_failures)}
+    return r2.prop_failures
+
+
 def replay(ctx, payload):
     case = payload.get('case') or (payload.get('correspondence_disagreements') or [{}])[0].get('case')
     print(json.dumps(case, indent=1, default=str))
@@ -708,5 +832,5 @@ def replay(ctx, payload):
         k = case['kind']
         src = case['source']
         print('implementation now:', im.tokens(src) if k == 'tokens' else im.list(src, case.get('symbols', ENV)) if k == 'list'
-              else im.parse(k.split('-')[1], src, case.get('symbols', ENV)))
+              else ('end to end: run the case_file with exactly' if k == 'parse-file' else im.parse(k.split('-')[1], src, case.get('symbols', ENV))))
     return 0
